@@ -13,7 +13,7 @@ CLAIMED = {
    note="assumed: to_slice through its contract [U3.to_slice] (proved separately as far as unit json_bytes goes), transport write contract, vstd Vec specs"),
  "C03": dict(cat="proof", ref="5 C03", tech=TECH,
    text="per serde data-model call, the bytes appended by the real json_ser.rs functions equal a spec of compact JSON, for all inputs and all free-space values: write_all (all-or-nothing), the 256-entry escape table, the escaped-string loop (unbounded; unreachable_unchecked proved unreachable; both from_utf8_unchecked preconditions discharged), every Formatter method, all 30 Serializer methods, all 30 MapKeySerializer methods (integers quoted, strings/chars/unit variants as strings, everything else refused with nothing written), the 15 Compound methods (comma/colon/bracket state machine against the stub Serialize contract), and to_slice against the very contract text that unit write_path assumes; corollary lemma: no byte < 0x20 inside an encoded string",
-   note="assumed: the spec enc is a faithful transcription of serde_json's CompactFormatter (cross-checked, not decided, by a differential runner real to_slice vs serde_json::to_vec); itoa/ryu/classify/encode_utf8 contracts; one UTF-8 cut-at-ASCII axiom; slice length <= isize::MAX; monomorphic instance only (N5); user Serialize impls meet the stub contract; lifting to all Serialize values (structural induction) on paper; 'BufferTooSmall only when it does not fit' proved for the leaf writers and assumed upward"),
+   note="assumed: the spec enc is a faithful transcription of serde_json's CompactFormatter (cross-checked, not decided, by a differential runner real to_slice vs serde_json::to_vec); itoa/ryu/classify/encode_utf8 contracts; one UTF-8 cut-at-ASCII axiom; slice length <= isize::MAX; monomorphic instance only (N5); user Serialize impls meet the stub contract; lifting to all Serialize values (structural induction) on paper; 'BufferTooSmall only when it does not fit' is proved for every built-in method (leaf writers, escaped strings, byte arrays, all Serializer / MapKeySerializer / Compound methods) and is part of the stub contract assumed of user Serialize impls"),
  "C06": dict(cat="proof", ref="5 C06", tech=TECH,
    text="Chain::new/append keep call_count/reply_count = number of calls / of non-oneway calls and enqueue each call as one frame; ReplyStream::new starts done iff no reply is owed; the accounting statements of poll_next (extracted fragment) advance the index exactly on a final reply or method error and set done exactly on error or when the owed count is reached; a proved counting lemma shows a conforming reply script is consumed exactly",
    note="assumed/unverified: Chain::send and the pin-projection / unsafe / ready! plumbing of poll_next around the fragment; enqueue_call via its write_path contract; composition with C01 on paper"),
